@@ -51,7 +51,7 @@ def main(tier):
              "enabled and the global state repeats), step cap not hit, and exit 0 when all scripts succeed",
         assumptions=["one process runs at a time; gates as listed per scenario; time in the jobserver is virtual",
                      "<= 2 concurrently started top-level invocations; graphs as listed"],
-        budget_s=50 if tier == "quick" else 2400)
+        budget_s=600 if tier == "quick" else 3000)
 
 
 def replay(path):
